@@ -367,10 +367,12 @@ def run_shard(spec, acc):
                         acc.count('routine_steps_during_concurrent_builds')
                     yield 0.001
 
+            bg_done = threading.Event()
+
             def builder():
                 for i in bidx:
                     if bg_stop[0]:
-                        return
+                        break
                     try:
                         r = build_one(gg, bns, gen(seed, i),
                                       describe=brng.choice([False, True, 'nokeep']))
@@ -380,6 +382,7 @@ def run_shard(spec, acc):
                     except BaseException as e:   # noqa
                         errs.append(short_tb(e))
                     yield 0.002
+                bg_done.set()
             for c in (clk.SystemClock, bg_clock, clk.SystemClock):
                 stm.Routine(ticker).play(c) if c is clk.SystemClock else \
                     stm.Routine(ticker).play(c, 0)
@@ -393,6 +396,10 @@ def run_shard(spec, acc):
         deadline = time.time() + min(max(90.0, 0.25 * len(idx)), 0.7 * cfg.get('hard_timeout', 900))
         for t in ths:
             t.join(max(0.1, deadline - time.time()))
+        if bg_clock is not None and not [t for t in ths if t.is_alive()]:
+            # the routine that builds definitions itself finishes its list (on a
+            # loaded host the threads may be done before it got far)
+            bg_done.wait(30.0)
         bg_stop[0] = True
         if bg_clock is not None:
             time.sleep(0.01)
